@@ -34,7 +34,7 @@ func init() {
 		ID:    "C13",
 		Title: "Concurrent queries are free of data races, crashes and cross-talk",
 		Level: "exploration",
-		Rule: "HASH / ENCODE over many rows on separate documents; PARALLEL joins whose ON holds a call followed by plain operands; background calls that read rows of a derived table. phase 'coldstart': every case is a fresh process whose first use of the library is a burst of 4..16 concurrent queries (run-alone results afterwards); jobs also: a panicking ON in PARALLEL joins, selectors that go on past the name of an unread CTE, un-aliased outer joins on the shared document. PARALLEL joins whose ON touches query state (ONCE, EXISTS, a CTE not yet read); BETWEEN with `<-` bounds on a shared document; top-level selector functions in unseen spellings (the execreader workload computes its run-alone results after the concurrent run). internal-parallelism jobs include bare ASYNC over three array levels and LIKE inside the ON of nested-loop PARALLEL joins. every case runs in a child built with the Go race detector (GORACE halt_on_error=0, reports collected from the log and deduplicated by outermost genql frame pair) with yields injected at the verif hooks (selector cache, PARALLEL-join goroutines, background function goroutines, after the wait). " +
+		Rule: "one text under two option sets at once (expected rows from the harness); stateful ONs under the hash-join spellings. HASH / ENCODE over many rows on separate documents; PARALLEL joins whose ON holds a call followed by plain operands; background calls that read rows of a derived table. phase 'coldstart': every case is a fresh process whose first use of the library is a burst of 4..16 concurrent queries (run-alone results afterwards); jobs also: a panicking ON in PARALLEL joins, selectors that go on past the name of an unread CTE, un-aliased outer joins on the shared document. PARALLEL joins whose ON touches query state (ONCE, EXISTS, a CTE not yet read); BETWEEN with `<-` bounds on a shared document; top-level selector functions in unseen spellings (the execreader workload computes its run-alone results after the concurrent run). internal-parallelism jobs include bare ASYNC over three array levels and LIKE inside the ON of nested-loop PARALLEL joins. every case runs in a child built with the Go race detector (GORACE halt_on_error=0, reports collected from the log and deduplicated by outermost genql frame pair) with yields injected at the verif hooks (selector cache, PARALLEL-join goroutines, background function goroutines, after the wait). " +
 			"A case = G goroutines (2..8 quick, 2..16 thorough) x several queries each, in one of five workloads: (1) separate documents with selector texts never seen before (table and column names unique per goroutine and iteration, so cache misses and hits run concurrently), (2) separate documents with cached selectors, " +
 			"(3) ONE shared document read by queries of every kind that used to write markers (WHERE comparisons, row- and root-scoped subqueries, EXISTS, IN (subquery)) plus ORDER BY, GROUP BY, DISTINCT and CTEs under Wrapped(), (4) the library's own parallelism (all PARALLEL join variants, ASYNC / SPINASYNC calls with injected latencies) G at a time, (5) concurrent ExecReader calls on one shared document. " +
 			"Oracle: no race report with genql frames, no child death (concurrent map access, panic), no deadlock (watchdog), every goroutine's result equals the result of the same (query, document) run alone (before the goroutines start; after they finish for the fresh-selector workload), and the shared document is unchanged. " +
